@@ -29,7 +29,7 @@ MANIFEST = {
     "design_ref": "8/C18",
 }
 EXPLANATION = ("The model of pymeeus.Earth regenerated from /repo is instantiated over Coq's real numbers; bridging lemmas "
-               "(C18_bridge/_rp/_lv/_rm/_dist.v, symbolic evaluation of the generated text) show that each method computes a "
+               "(C18_bridge/_rp/_lv/_rm/_dist_f/_dist_a.v, symbolic evaluation of the generated text) show that each method computes a "
                "hand-written real function of C18_spec.v, where the identities of the property are proved for all latitudes "
                "and all ellipsoids with a > 0, 0 <= f < 1. Rounding is not covered by the theorems: the binary64 behaviour is tied "
                "to the same model text by the bit-exact correspondence stage and the clauses are searched on the implementation "
@@ -43,7 +43,7 @@ CLAUSES = {
     "linear speed = angular velocity * parallel radius": "proved [ideal, C18_linear_velocity]; searched",
     "height adds h/a (cos phi, sin phi)": "proved [ideal, C18_height]; searched",
     "built-in ellipsoids IAU76 / WGS84 have the documented constants and are covered": "proved [ideal, C18_builtin]; searched",
-    "distance symmetric for all point pairs (float or Angle arguments)":
+    "distance symmetric for all point pairs (four float or four Angle arguments)":
         "proved [ideal, C18_distance_symmetric(_angle); exactly antipodal pairs (c = 0) raise ZeroDivisionError in both orders in the real-number instance; in binary64 c is never 0 there — searched]",
     "distance zero for coincident points": "proved [ideal, C18_distance_coincident]; searched (exact 0.0)",
     "distance along the equator = a |delta lambda| for 0 < |delta lambda| < 180 deg": "proved [ideal, C18_distance_equator]; searched (1e-12 rel)",
@@ -56,8 +56,8 @@ CLAUSES = {
 
 
 def proof_files(tier):
-    return ["C18_tac.v", "C18_spec.v", "C18_bridge.v", "C18_rp.v", "C18_lv.v", "C18_rm.v", "C18_dist.v",
-            "C18_main.v", "C18.v"]
+    return ["C18_tac.v", "C18_spec.v", "C18_defs.v", "C18_bridge.v", "C18_rp.v", "C18_lv.v", "C18_rm.v",
+            "C18_dist_f.v", "C18_dist_a.v", "C18_dist.v", "C18_main.v", "C18.v"]
 
 
 # ----------------------------------------------------------------------------- generators
